@@ -1192,6 +1192,8 @@ class ArithmeticExpression(Term):
 
         # operands never define a name: their own aliases are not printed inside the expression
         operand_ctx = ctx.copy(with_alias=False)
+        # left before right: a parameterizer numbers / collects the values in rendering order
+        left_sql = self.left.get_sql(operand_ctx)
         right_sql = self.right.get_sql(operand_ctx)
         # a-(-1) must not become a--1 (a comment opener)
         right_parens = self.right_needs_parens(self.operator, right_op) or (
@@ -1199,9 +1201,7 @@ class ArithmeticExpression(Term):
         )
         arithmetic_sql = "{left}{operator}{right}".format(
             operator=self.operator.value,
-            left=("({})" if self.left_needs_parens(self.operator, left_op) else "{}").format(
-                self.left.get_sql(operand_ctx)
-            ),
+            left=("({})" if self.left_needs_parens(self.operator, left_op) else "{}").format(left_sql),
             right=("({})" if right_parens else "{}").format(right_sql),
         )
 
